@@ -2,7 +2,8 @@
 
 TRUSTED_BASE = [
     "Coq 8.16.1 kernel incl. vm_compute (no native_compute); full .vo build",
-    "no axioms: Print Assumptions of every property theorem must be 'Closed under the global context'",
+    "no axioms: Print Assumptions of every property theorem must be 'Closed under the global context'; no extraction, no Extract directive",
+    "coqchk -o (thorough tier) re-checks the compiled property file and its closure; the axioms it lists belong to standard-library files that Psatz loads (Coq.Logic.FunctionalExtensionality.functional_extensionality_dep, Coq.Reals.ClassicalDedekindReals.sig_not_dec / sig_forall_dec) and are used by no theorem of the development",
     "correspondence harness (Go): history generator, ABCI driver on the real SettlusApp, fault-injecting keeper wrappers, snapshot projection, Coq term printer; bin/check (python)",
     "modelled, not verified: Cosmos-SDK baseapp (tx atomicity, panic recovery), signature verification, x/bank, x/staking, x/distribution, EVM / ERC-721 / SBT contracts, protobuf codecs, IAVL hashing, SHA-256, bech32, EIP-55",
 ]
